@@ -32,7 +32,7 @@ class G:
     def rows(self, nr, nc, kind=None):
         r = self.rng
         kind = kind or r.choice(["dense", "dense", "dense", "sparse", "zero", "ident", "single", "ones", "lowrank",
-                                 "lastcol"])
+                                 "lastcol", "quadzero"])
         full = (1 << nc) - 1
         if kind == "dense":
             return [r.getrandbits(nc) for _ in range(nr)], kind
@@ -67,6 +67,25 @@ class G:
                         v ^= b
                 out.append(v)
             return out, kind
+        if kind == "quadzero":
+            # block triangular / block diagonal: dense with one or two quadrants zero, split at the word-aligned halves the
+            # recursive routines use (data-dependent shortcuts on zero blocks)
+            hr = (((nr - 1) // 64 + 1) >> 1) * 64 if nr > 64 else nr // 2
+            hc = (((nc - 1) // 64 + 1) >> 1) * 64 if nc > 64 else nc // 2
+            zq = r.choice([("tr",), ("bl",), ("tr", "bl"), ("tl",), ("br",)])
+            lo, hi = (1 << hc) - 1, full & ~((1 << hc) - 1)
+            out = []
+            for i in range(nr):
+                v = r.getrandbits(nc) if nc else 0
+                top = i < hr
+                if ("tl" in zq and top) or ("bl" in zq and not top):
+                    v &= ~lo
+                if ("tr" in zq and top) or ("br" in zq and not top):
+                    v &= ~hi
+                out.append(v & full)
+            return out, kind
+        if kind == "period64":      # placeholder content; tools/ops.py builds the periodic rows itself
+            return [0] * nr, kind
         raise ValueError(kind)
 
     def rank_profile_rows(self, nr, nc):
